@@ -25,7 +25,7 @@ RULE = (
     "slices are consecutive, disjoint, each <= chunksize rows, their union is [0,n) exactly once; passes == 1, or 2 "
     "iff centres are generated; no request covers more than chunksize rows when n > chunksize; Parquet: row groups "
     "in order, none twice per pass, buffered rows < chunksize + largest row group. Non-trivial: n > chunksize "
-    "(more than one chunk). Frame source also on the virtual pool with W=2,3 (chunk sizes that are no multiple of W). Reader objects (frame, HDF5, FITS, Parquet) reused over passes: every history of <= 2 (3) of {peek, loop left after 2 chunks, full pass, probe} must be followed by a complete pass. Distinct: the case tuple."
+    "(more than one chunk). Generated centres also with a probe (20) smaller than the input (23, 25, 30 rows); the frame proxy exposes .index and logs whole-frame operations (reset_index, copy, ...). Frame source also on the virtual pool with W=2,3 (chunk sizes that are no multiple of W). Reader objects (frame, HDF5, FITS, Parquet) reused over passes: every history of <= 2 (3) of {peek, loop left after 2 chunks, full pass, probe} must be followed by a complete pass. Distinct: the case tuple."
 )
 ASSUMPTIONS = [
     "requests are observed at the library's seam to the source object (slicing of the frame / dataset / FITS column, "
@@ -53,6 +53,10 @@ def cases(tier, seed):
                     out.append(dict(n=n, chunksize=cs, source="random", mode=mode))
     if tier == "thorough":
         out.append(dict(n=150_001, chunksize=65_536, source="random", mode="create"))
+    # generated centres with a probe smaller than the input (probe_size does not divide n): the probe pass is a pass
+    # (probe sizes below 10 * patch_num are replaced by the default, which exceeds these inputs)
+    for n, cs, src in itertools.product((23, 25, 30), (2, 3), ("frame", "hdf", "fits", "pq2")):
+        out.append(dict(n=n, chunksize=cs, source=src, mode="create", probe_size=20))
     # parallel creation (virtual pool, submission order): the slices requested from the source obey the same rules
     for n, cs, W, mode in itertools.product((7, 9), (2, 3, 4), (2, 3), ("centres", "ids", "create")):
         out.append(dict(n=n, chunksize=cs, source="frame", mode=mode, W=W))
@@ -107,6 +111,26 @@ class LogFrame:
     @property
     def iloc(self):
         return self  # positional slicing is what __getitem__ logs
+
+    @property
+    def index(self):
+        return self.df.index  # labels only, no records
+
+    @property
+    def columns(self):
+        return self.df.columns
+
+    def _whole(self, name):
+        def method(*a, **k):  # any operation producing a derived frame touches every record at once
+            n = len(self.df)
+            self.log.req("whole-column", 0, n, n)
+            return LogFrame(getattr(self.df, name)(*a, **k), self.log)
+        return method
+
+    def __getattr__(self, name):
+        if name in ("reset_index", "copy", "sort_index", "reindex", "to_numpy", "to_records", "astype", "dropna"):
+            return self._whole(name)
+        raise AttributeError(name)
 
     @property
     def loc(self):
@@ -266,7 +290,7 @@ def run_case(case):
         kw["patch_name"] = "pid"
         ncols = 4
     if mode == "create" or mode.endswith("+num"):
-        kw.update(patch_num=2, probe_size=20)
+        kw.update(patch_num=2, probe_size=case.get("probe_size", 20))
     expect_passes = 2 if mode == "create" else 1
     v = []
     delivered = []
